@@ -60,7 +60,7 @@ func init() {
 		real:  realCode,
 		stubs: streamStubs,
 		runs: []engineRun{
-			{spec: engineSpec{name: "c15enum", memCap: 6 << 30}, label: "c15enum", quickRuns: 4, quickDL: 50 * time.Second, thorRuns: 400, thorDL: 25 * time.Minute,
+			{spec: engineSpec{name: "c15enum", memCap: 6 << 30}, label: "c15enum", quickRuns: 2, quickDL: 50 * time.Second, thorRuns: 400, thorDL: 25 * time.Minute,
 				description: "complete single-fault enumeration per corpus entry"},
 			{spec: engineSpec{name: "c15seq", memCap: 6 << 30}, label: "c15seq", quickRuns: 6000, quickDL: 25 * time.Second, thorRuns: 2000000, thorDL: 20 * time.Minute,
 				description: "seeded multi-fault sequences, splices, random bytes, cross-type decoding"},
